@@ -79,22 +79,29 @@ func e2eIndex(mig bool, prov string, slot int) int {
 
 var e2eFirst int
 
+// initE2E registers the account keys (once) and builds the two environments.  The environments are
+// rebuilt every e2eRotate cases: an account's order list grows with every new-order and the store
+// re-reads all of it each time.
 func initE2E() {
-	e2eFirst = len(accounts)
-	for _, mig := range []bool{false, true} {
-		for _, p := range e2eProvs {
-			for slot := 0; slot < 3; slot++ {
-				seed := sha(fmt.Sprintf("c11-e2e-%v-%s-%d", mig, p.name, slot))
-				priv := ed25519.NewKeyFromSeed(seed)
-				j := privJWK(priv, "EdDSA")
-				pub := j.Public()
-				accounts = append(accounts, &pub)
-				tp, _ := pub.Thumbprint(crypto.SHA256)
-				thumbs = append(thumbs, base64.RawURLEncoding.EncodeToString(tp))
-				e2eKeys[e2eIndex(mig, p.name, slot)] = &env.Key{Kind: "ed", Priv: priv}
+	if e2eFirst == 0 {
+		e2eFirst = len(accounts)
+		for _, mig := range []bool{false, true} {
+			for _, p := range e2eProvs {
+				for slot := 0; slot < 3; slot++ {
+					seed := sha(fmt.Sprintf("c11-e2e-%v-%s-%d", mig, p.name, slot))
+					priv := ed25519.NewKeyFromSeed(seed)
+					j := privJWK(priv, "EdDSA")
+					pub := j.Public()
+					accounts = append(accounts, &pub)
+					tp, _ := pub.Thumbprint(crypto.SHA256)
+					thumbs = append(thumbs, base64.RawURLEncoding.EncodeToString(tp))
+					e2eKeys[e2eIndex(mig, p.name, slot)] = &env.Key{Kind: "ed", Priv: priv}
+				}
 			}
 		}
 	}
+	e2eAcct = map[string]*env.Acct{}
+	e2eCount = 0
 	var specs []env.ProvSpec
 	for _, p := range e2eProvs {
 		t := &provisioner.ACME{Type: "ACME", Name: p.name}
@@ -129,11 +136,16 @@ func initE2E() {
 	}
 }
 
+const e2eRotate = 1200
+
+var e2eCount int
+
 func closeE2E() {
-	for _, e := range e2eEnv {
+	for i, e := range e2eEnv {
 		if e != nil {
 			e.Close()
 		}
+		e2eEnv[i] = nil
 	}
 }
 
@@ -186,6 +198,9 @@ func (k *Case) runE2E() (out string) {
 	}()
 	w := k.E2E
 	if e2eEnv[0] == nil {
+		initE2E()
+	} else if e2eCount++; e2eCount > e2eRotate {
+		closeE2E()
 		initE2E()
 	}
 	e := e2eEnv[0]
@@ -264,6 +279,7 @@ func (k *Case) runE2E() (out string) {
 	case "da":
 		genDA(r, k)
 		k.DA.served, k.DA.Roots, k.DA.AuthzFail, k.DA.AuthzDBFail, k.DA.AuthzOther = e.Provs[w.Prov], "ca", false, false, false
+		k.DA.AuthzNotOwn, k.DA.AuthzLists = false, false
 		k.DA.Enabled = nil
 	}
 	k.Acct = realOwner
